@@ -104,6 +104,9 @@ func typeInfoOf(k colKind) TypeInfo {
 	return TypeInfo{Ty: k.ty, BKind: k.bkind, JSONOwn: k.own, YAMLOwn: k.own, TextOwn: k.own, Ref: k.ref}
 }
 
+// escapeProne are prefixes of trait strings whose JSON (and partly YAML) rendering needs escapes.
+var escapeProne = []string{"q\"", "b\\", "t\t", "<x>", "a&", "\u00e9", "\u2028", "\"\\<&>\t\u00fc", "'", "#", ": "}
+
 var methodNames = []string{"string", "isvalid", "values", "stringvalues", "parsestring", "parsegeneric", "isenum",
 	"marshaljson", "unmarshaljson", "marshaltext", "unmarshaltext", "marshalyaml", "unmarshalyaml", "str", "num",
 	"auxa", "auxb"}
@@ -183,6 +186,10 @@ func genTraitEnum(r *rand.Rand, nm *namer, typeName string, nextBlock *int, sp t
 				s = strconv.Itoa(r.IntN(40)) // numeric-looking string
 			case 1:
 				s = "tv-" + randWord(r)
+			case 2:
+				// characters that encoding/json escapes (quote, backslash, control characters, <, >, &,
+				// U+2028) and non-ASCII: the JSON form of the value differs from the value
+				s = escapeProne[r.IntN(len(escapeProne))] + randWord(r)
 			default:
 				s = "t." + randWord(r)
 			}
@@ -572,6 +579,17 @@ func corpusC12() []FileDef {
 		traitEnum("E0", uByName("uint"), 0, []TypeInfo{typeInfoOf(kt)},
 			Const{Name: "Oa", Val: "0", Cells: []Cell{cellOf(kt, "_Da", "", 80, false), cellOf(kt, "_Db", "", 3, false)}},
 			Const{Name: "Ob", Val: "1", Cells: []Cell{cellOf(kt, "_", "", 225, false), cellOf(kt, "_", "", 80, false)}}),
+	}})
+	// 8. parsable string traits whose JSON form contains escapes: the JSON documents are produced by
+	//    json.Marshal of the trait value, so the decoder must really unescape
+	kS := kindByID("Str")
+	o8 := defaultOpts()
+	o8.Parsable = []string{"Lbl", "Tag"}
+	out = append(out, FileDef{Kind: "corpus", Opts: o8, Traits: true, Enums: []EnumDef{
+		traitEnum("E0", uByName("int"), 0, []TypeInfo{typeInfoOf(ks), typeInfoOf(kS)},
+			Const{Name: "Qa", Val: "0", Cells: []Cell{cellOf(ks, "_Lbl", "say \"hi\"", 0, false), cellOf(kS, "_Tag", "a\\b", 0, false)}},
+			Const{Name: "Qb", Val: "1", Cells: []Cell{cellOf(ks, "_", "x<y>&z", 0, false), cellOf(kS, "_", "tab\there", 0, false)}},
+			Const{Name: "Qc", Val: "2", Cells: []Cell{cellOf(ks, "_", "caf\u00e9\u2028", 0, false), cellOf(kS, "_", "plain", 0, false)}}),
 	}})
 	// 6. two parsable traits with equal cells on one line: the Parse case lists the constant twice
 	o6 := defaultOpts()
